@@ -323,7 +323,7 @@ void SimulateF100L::bit_ops(uint16_t opcode)
         switch (r)
         {
           case 2: cr.value = data32 & 0xffff; break;
-          case 3: memory->write16(pc - 2, data32 & 0xffff); break;
+          case 3: memory->write16((uint16_t)(pc - 2), data32 & 0xffff); break;
           default: accum = data32 & 0xffff; break;
         }
       }
@@ -351,7 +351,7 @@ void SimulateF100L::bit_ops(uint16_t opcode)
         switch (r)
         {
           case 2: cr.value = data32 & 0xffff; break;
-          case 3: memory->write16(pc - 2, data32 & 0xffff); break;
+          case 3: memory->write16((uint16_t)(pc - 2), data32 & 0xffff); break;
           default: accum = data32 & 0xffff; break;
         }
       }
